@@ -91,6 +91,22 @@ def explore_compile(fp):
         def out_lexer(m, a, raw): events.append(('create', os.path.basename(deref_s(a[2])))); return io_result(UNIT)
         stub('RustOutput::output_parser', out_parser)
         stub('RustOutput::output_lexer', out_lexer)
+        # any other mutating std::fs call is a file-system effect of its own (kind = the function called)
+        import re as _re
+        _orig_resolve = r.resolve
+        def resolve(fr, callee, use_tyargs=False, _orig=_orig_resolve):
+            try:
+                return _orig(fr, callee, use_tyargs)
+            except Unsupported:
+                mm = _re.match(r'^(?:std::)?(?:fs::)?(create_dir_all|create_dir|remove_file|remove_dir|remove_dir_all|rename|copy|hard_link|set_permissions|write|File::create_new|OpenOptions::open)(::<.*>)?$', callee)
+                if not mm: raise
+                name = mm.group(1)
+                def eff(m, a, raw, name=name):
+                    stubs.add('fs::' + name)
+                    events.append(('write' if name in ('write', 'copy', 'rename', 'set_permissions') else 'create', f'{name}({os.path.basename(deref_s(a[0])) if a else ""})'))
+                    return io_result(UNIT)
+                return ('model', eff, 'fs-effect:' + name)
+        r.resolve = resolve
         status = 'ok'; msg = ''; ret = None
         try:
             ret = r.call(f_compile, ['g.llw', 'OUTDIR', Sym(F['check']), Sym(F['format']), Sym(verbose), Sym(F['graph']), Sym(F['short'])])
@@ -258,18 +274,24 @@ def confirm_native(v):
         elif any(k.startswith('sema_diag_1') and val for k, val in env.items()): text = WARN
         else: text = GOOD
         open(os.path.join(d, 'g.llw'), 'w').write(text)
-        os.makedirs(os.path.join(d, 'out'))
+        if not any('create_dir' in str(e) for e in v.get('events', [])): os.makedirs(os.path.join(d, 'out'))
         for k, val in env.items():
             if k.startswith('exists_lexer') and val: open(os.path.join(d, 'lexer.rs'), 'w').write('// mine\n')
             if k.startswith('exists_parser') and val: open(os.path.join(d, 'parser.rs'), 'w').write('// mine\n')
         before = {}
-        for root, _, fs in os.walk(d):
+        for root, ds, fs in os.walk(d):
             for f in fs: before[os.path.relpath(os.path.join(root, f), d)] = open(os.path.join(root, f), 'rb').read()
+            for x in ds: before[os.path.relpath(os.path.join(root, x), d) + '/'] = b'<dir>'
         args = [llw] + (['-c'] if flags['check'] else []) + (['-f'] if flags['format'] else []) + (['-g'] if flags['graph'] else []) + (['-s'] if flags['short'] else []) + ['-v'] * flags['verbose'] + ['-o', 'out', 'g.llw']
         pr = subprocess.run(args, cwd=d, capture_output=True, text=True, timeout=60)
         after = {}
-        for root, _, fs in os.walk(d):
+        for root, ds, fs in os.walk(d):
             for f in fs: after[os.path.relpath(os.path.join(root, f), d)] = open(os.path.join(root, f), 'rb').read()
+            for x in ds:
+                if os.path.relpath(os.path.join(root, x), d) not in ('out',) or not os.path.isdir(os.path.join(d, 'out')) or True:
+                    after.setdefault(os.path.relpath(os.path.join(root, x), d) + '/', b'<dir>')
+        for root, ds, fs in os.walk(d):
+            pass
         changed = sorted(k for k in after if before.get(k) != after[k]) + sorted(k for k in before if k not in after)
         v['native'] = dict(cmd=' '.join(args[1:]), grammar=text, exit=pr.returncode, files_created_or_changed=changed)
         k = v['kind']
